@@ -147,8 +147,8 @@ def distance(setmap, p1, p2):
     d = 0
     for pset, count in setmap.items():
         if (p1 in pset) ^ (p2 in pset):
-            d += count / float(total)
-    return d
+            d += count
+    return d / float(total)
 
 
 def divergence(setmap):
